@@ -41,9 +41,10 @@ type pkgSpec struct {
 }
 
 var pkgs = []pkgSpec{
+	{"internal/errors", "errs"},
+	{"internal/runtime", "rt"},
 	{"internal/encoder", "enc"},
 	{"internal/decoder", "dec"},
-	{"internal/runtime", "rt"},
 	{"internal/encoder/vm", "vm"},
 	{"internal/encoder/vm_indent", "vmi"},
 	{"internal/encoder/vm_color", "vmc"},
@@ -53,7 +54,13 @@ var pkgs = []pkgSpec{
 
 type fakeImporter struct{ def types.Importer }
 
+// packages of the module that have been checked already (imports resolve to them)
+var checkedPkgs = map[string]*types.Package{}
+
 func (f fakeImporter) Import(path string) (*types.Package, error) {
+	if p, ok := checkedPkgs[path]; ok {
+		return p, nil
+	}
 	if !strings.Contains(path, ".") { // stdlib
 		if p, err := f.def.Import(path); err == nil {
 			return p, nil
@@ -119,7 +126,13 @@ func loadPkg(repo string, sp pkgSpec) (*parsed, error) {
 	}
 	info := &types.Info{Types: map[ast.Expr]types.TypeAndValue{}, Defs: map[*ast.Ident]types.Object{}, Uses: map[*ast.Ident]types.Object{}}
 	conf := types.Config{Importer: fakeImporter{importer.Default()}, Error: func(error) {}, FakeImportC: true, DisableUnusedImportCheck: true}
-	conf.Check(sp.dir, fset, list, info)
+	ipath := "github.com/goccy/go-json"
+	if sp.dir != "." {
+		ipath += "/" + sp.dir
+	}
+	if pkg, _ := conf.Check(ipath, fset, list, info); pkg != nil {
+		checkedPkgs[ipath] = pkg
+	}
 	return &parsed{sp, fset, files, info}, nil
 }
 
@@ -473,6 +486,7 @@ func main() {
 	files = append(files, genHelpers(byDir)...)
 	files = append(files, genResets(byDir)...)
 	files = append(files, genTypeAddr(byDir)...)
+	files = append(files, genPoolUse(byDir)...)
 	files = append(files, genVmShape(repo, byDir)...)
 	changed := []string{}
 	for _, g := range files {
